@@ -1,6 +1,6 @@
 (* Proofs about the record header / record value codec (C12). *)
 From Coq Require Import List NArith ZArith Bool Lia Arith ZifyBool ZifyNat ZifyN.
-From V Require Import lib.Strs lib.Serde lib.Msgpack gen.Consts model.Quote model.Header proofs.Msgpack.
+From V Require Import lib.Strs lib.Serde lib.Msgpack gen.Consts model.Quote model.Header proofs.Msgpack proofs.MsgpackExt.
 Import ListNotations.
 Open Scope N_scope.
 Ltac Zify.zify_post_hook ::= Z.div_mod_to_equations.
@@ -181,6 +181,35 @@ Lemma decode_truncated_header_lemma k v n :
 Proof.
   intros H. unfold decode_record. rewrite from_record_short_lemma; [reflexivity|].
   rewrite firstn_length. lia.
+Qed.
+
+Lemma from_record_canonical k b t : from_record (145 :: tag k :: b :: t) = Some k.
+Proof.
+  cbn [from_record]. unfold decode_header3. change (145 =? 145) with true. cbv iota.
+  rewrite tag_of_int_fix by (pose proof (tag_lt k); lia). apply tag_roundtrip.
+Qed.
+
+Lemma shapes_enum_ok k : enum_ok (shape_of_kind k) = true.
+Proof. destruct k; vm_compute; reflexivity. Qed.
+
+(* a strict prefix of a record never decodes: truncated input is an error *)
+Lemma decode_truncated_lemma k v n :
+  has_shape (shape_of_kind k) v = true -> wf v = true ->
+  (n < length (encode_record k v))%nat -> decode_record (firstn n (encode_record k v)) = None.
+Proof.
+  intros Hs Hw Hn. destruct (Nat.ltb_spec n 3) as [L|L]; [now apply decode_truncated_header_lemma|].
+  unfold encode_record in *. rewrite header_bytes in *. cbn [app] in *.
+  pose proof (mp_encode_nonempty v) as Hne.
+  destruct n as [|[|[|m]]]; try lia. cbn [firstn]. cbn [length] in Hn.
+  destruct (mp_encode v) as [|b t] eqn:Ev; [congruence|]. cbn [firstn].
+  unfold decode_record. rewrite from_record_canonical.
+  unfold decode_value.
+  replace (len (145 :: tag k :: b :: firstn m t) <=? SIZE) with false
+    by (symmetry; apply N.leb_gt; unfold len; cbn [length]; change SIZE with 2; lia).
+  change (skipn (N.to_nat SIZE) (145 :: tag k :: b :: firstn m t)) with (firstn (S m) (b :: t)).
+  unfold mp_from_slice. rewrite <- Ev.
+  rewrite mp_truncated_rejected; [reflexivity|apply shapes_enum_ok|assumption|assumption|].
+  rewrite Ev. cbn [length] in *. lia.
 Qed.
 
 (* ---------------------------------------------------------------- chunks *)
